@@ -173,4 +173,46 @@ theorem numOk_decimal (w : Bytes) (h : decimalLit w = true) : numOk w .int := by
     simp only [hfrac, Bool.false_eq_true, if_false, List.drop_left', ne_of_not_letter _ 101 hr.1.1 rfl, ne_of_not_letter _ 69 hr.1.1 rfl,
       Bool.or_self]
 
+/-- digits `.` digits: a decimal literal with a fraction -/
+def fractionLit (d1 d2 : Bytes) : Bool := !d1.isEmpty && d1.all isDigit && !d2.isEmpty && d2.all isDigit
+
+theorem takeWhileLen_digits (d rest : Bytes) (hd : d.all isDigit = true) (hr : isDigit (rest.headD 0) = false) :
+    takeWhileLen isDigit (d ++ rest) = d.length := by
+  unfold takeWhileLen
+  rw [takeWhile_append_stop isDigit d rest (fun x hx => (List.all_eq_true.1 hd) x hx) (Or.inl hr)]
+
+theorem numOk_fraction (d1 d2 : Bytes) (h : fractionLit d1 d2 = true) : numOk (d1 ++ 46 :: d2) .float := by
+  simp only [fractionLit, Bool.and_eq_true, Bool.not_eq_true', List.isEmpty_eq_false_iff] at h
+  obtain ⟨⟨⟨hne1, hd1⟩, hne2⟩, hd2⟩ := h
+  obtain ⟨c, w1, rfl⟩ : ∃ c w1, d1 = c :: w1 := by cases d1 with | nil => exact absurd rfl hne1 | cons c w => exact ⟨c, w, rfl⟩
+  obtain ⟨e, w2, rfl⟩ : ∃ e w2, d2 = e :: w2 := by cases d2 with | nil => exact absurd rfl hne2 | cons c w => exact ⟨c, w, rfl⟩
+  have hc : isDigit c = true := by simp only [List.all_cons, Bool.and_eq_true] at hd1; exact hd1.1
+  have he : isDigit e = true := by simp only [List.all_cons, Bool.and_eq_true] at hd2; exact hd2.1
+  refine ⟨by simpa using hc, fun r hr => ?_⟩
+  simp only [fol, Bool.and_eq_true, Bool.not_eq_true', isWordByte, Bool.or_eq_false_iff] at hr
+  -- the whole text in one normal form
+  have hB : (c :: w1 ++ 46 :: (e :: w2)) ++ r = c :: (w1 ++ 46 :: e :: (w2 ++ r)) := by simp
+  rw [hB]
+  have hp : isLetter ((w1 ++ 46 :: e :: (w2 ++ r)).headD 0) = false := by
+    cases w1 with
+    | nil => show isLetter 46 = false; decide
+    | cons d w => simp only [List.all_cons, Bool.and_eq_true] at hd1; simpa using digit_not_letter d hd1.2.1
+  have hn1 : takeWhileLen isDigit (c :: (w1 ++ 46 :: e :: (w2 ++ r))) = w1.length + 1 := by
+    have := takeWhileLen_digits (c :: w1) (46 :: e :: (w2 ++ r)) hd1 (show isDigit 46 = false by decide)
+    simpa using this
+  have hdr1 : List.drop (w1.length + 1) (c :: (w1 ++ 46 :: e :: (w2 ++ r))) = 46 :: e :: (w2 ++ r) := by
+    rw [List.drop_succ_cons, List.drop_left' rfl]
+  have hn2 : takeWhileLen isDigit (e :: (w2 ++ r)) = w2.length + 1 := by
+    have := takeWhileLen_digits (e :: w2) r hd2 hr.1.2
+    simpa using this
+  have hdr2 : List.drop (w1.length + 1 + 1 + (w2.length + 1)) (c :: (w1 ++ 46 :: e :: (w2 ++ r))) = r := by
+    have e1 : c :: (w1 ++ 46 :: e :: (w2 ++ r)) = (c :: w1 ++ 46 :: (e :: w2)) ++ r := by simp
+    rw [e1, List.drop_left' (by simp; omega)]
+  unfold scanNumber
+  simp only [List.headD_cons, List.tail_cons, ne_of_not_letter _ 120 hp rfl, ne_of_not_letter _ 88 hp rfl, ne_of_not_letter _ 98 hp rfl,
+    ne_of_not_letter _ 66 hp rfl, ne_of_not_letter _ 111 hp rfl, ne_of_not_letter _ 79 hp rfl, Bool.or_self, Bool.and_false,
+    Bool.false_eq_true, if_false, hn1, hdr1, beq_self_eq_true, Bool.true_and, he, if_true, List.drop_succ_cons, List.drop_zero, hn2, hdr2,
+    ne_of_not_letter _ 101 hr.1.1 rfl, ne_of_not_letter _ 69 hr.1.1 rfl]
+  simp; omega
+
 end Xjs.LP
